@@ -38,6 +38,24 @@ var units = []Unit{
 		{Kind: "methodset", Name: "crc16", Methods: "Write compute Sum16 Sum Reset Size BlockSize"},
 	}},
 	{Name: "basetype", Dir: "profile/basetype", Items: []Item{
+		{Kind: "const", Name: "BaseTypeNumMask"},
+		{Kind: "const", Name: "EndianAbilityMask"},
+		{Kind: "const", Name: "EnumInvalid"},
+		{Kind: "const", Name: "Sint8Invalid"},
+		{Kind: "const", Name: "Uint8Invalid"},
+		{Kind: "const", Name: "Sint16Invalid"},
+		{Kind: "const", Name: "Uint16Invalid"},
+		{Kind: "const", Name: "Sint32Invalid"},
+		{Kind: "const", Name: "Uint32Invalid"},
+		{Kind: "const", Name: "Float32Invalid"},
+		{Kind: "const", Name: "Float64Invalid"},
+		{Kind: "const", Name: "Uint8zInvalid"},
+		{Kind: "const", Name: "Uint16zInvalid"},
+		{Kind: "const", Name: "Uint32zInvalid"},
+		{Kind: "const", Name: "ByteInvalid"},
+		{Kind: "const", Name: "Sint64Invalid"},
+		{Kind: "const", Name: "Uint64Invalid"},
+		{Kind: "const", Name: "Uint64zInvalid"},
 		{Kind: "var", Name: "sizes"},
 		{Kind: "func", Name: "BaseType.Size"},
 		{Kind: "func", Name: "BaseType.Valid"},
